@@ -714,10 +714,17 @@ func SexpToGoStructs(
 	//}
 
 	var recordKey string
+	var shadowed *SexpHash // the record this call attached a new Go object to
 
 	defer func() {
 		_ = cacheHit
 		recov := recover()
+		if shadowed != nil && (err != nil || recov != nil) {
+			// the conversion failed: the half-filled object is not the record's Go struct
+			shadowed.ShadowSet = false
+			shadowed.GoShadowStruct = nil
+			shadowed.GoShadowStructVa = reflect.Value{}
+		}
 		if !cacheHit && err == nil && recov == nil {
 			asHash, ok := sexp.(*SexpHash)
 			if ok && asHash.TypeName == "hash" {
@@ -1042,6 +1049,7 @@ func SexpToGoStructs(
 			src.ShadowSet = true
 			src.GoShadowStruct = checkPtrStruct
 			src.GoShadowStructVa = factOutputVal
+			shadowed = src
 
 		} else if targTyp.Kind() == reflect.Ptr && targTyp.Elem() == factType {
 			//Q("we have a double pointer that matches the factory type! factType == targTyp.Elem(). factType=%v/%T  targTyp = %v/%T", factType, factType, targTyp, targTyp)
@@ -1056,6 +1064,7 @@ func SexpToGoStructs(
 			src.ShadowSet = true
 			src.GoShadowStruct = checkPtrStruct
 			src.GoShadowStructVa = factOutputVal
+			shadowed = src
 
 		} else if factType != targTyp {
 			// factType=*zygo.NestInner/*reflect.rtype  targTyp = **zygo.NestInner/*reflect.rtype
